@@ -167,6 +167,10 @@ class BufferCmd(SoundCmd):
         elif sound.bits_per_sample == 16:
             # 16 bit per sample
             # Convert from big endian word to little endian word
+            if length < 0 or idx + length * 2 > len(fdata):
+                # Do not allocate the declared size when the samples are
+                # not there
+                raise ValueError("Sound data is shorter than its header says")
             data = bytearray(length * 2)
 
             for i in range(0, length*2, 2):
